@@ -1628,3 +1628,57 @@ func init() {
 		return tuple{a[2], tFalse}
 	}
 }
+
+// ---------- reflect: just enough for "is the dynamic type one of ..." and Len ----------
+
+type reflValue struct {
+	v Value
+	t types.Type
+}
+
+func init() {
+	I := intrinsics
+	I["reflect.TypeOf"] = func(m *Machine, fr *frame, fn *ssa.Function, a []Value) Value {
+		it := a[0].(Iface)
+		if it.T == nil {
+			return Iface{}
+		}
+		pkg := m.eng.prog.ImportedPackage("reflect")
+		if pkg == nil {
+			m.unsupported("reflect not loaded")
+		}
+		key := "rtype:" + it.T.String()
+		obj, ok := m.ghost[key].(*Value)
+		if !ok {
+			obj = new(Value)
+			*obj = Str{s: it.T.String()}
+			m.ghost[key] = obj
+		}
+		return Iface{T: types.NewPointer(pkg.Type("rtype").Type()), V: obj}
+	}
+	I["reflect.ValueOf"] = func(m *Machine, fr *frame, fn *ssa.Function, a []Value) Value {
+		it := a[0].(Iface)
+		return reflValue{v: it.V, t: it.T}
+	}
+	I["(reflect.Value).Len"] = func(m *Machine, fr *frame, fn *ssa.Function, a []Value) Value {
+		rv, ok := a[0].(reflValue)
+		if !ok {
+			m.unsupported("reflect.Value of unknown origin")
+		}
+		switch x := rv.v.(type) {
+		case sliceV:
+			return mkInt64(int64(x.len))
+		case Str:
+			return mkInt64(int64(x.Len()))
+		case arrayV:
+			return mkInt64(int64(len(x)))
+		case *MapV:
+			if x == nil {
+				return mkInt64(0)
+			}
+			return mkInt64(int64(len(x.entries)))
+		}
+		m.rtPanic("reflect: call of reflect.Value.Len on a value without length")
+		return nil
+	}
+}
